@@ -23,7 +23,7 @@ func init() {
 			"The same (config, source) is compiled repeatedly, in shuffled order relative to other compilations, from equal-but-distinct config objects and (race phase) from 16 goroutines over one shared Config under the race detector: Dump text and results on all bindings must be equal. " +
 			"CopyConfig/ExtendConf results are probed for aliasing in both directions (a marker written into every map / slice element of one side must not show in the other). " +
 			"A case is non-trivial when the source has >=1 directive or the config >=1 entry in each map; distinct = distinct (config summary, source).",
-		Assumptions: []string{"operator code pointers are compared with reflect; behaviour is compared on PRNG-chosen bindings"},
+		Assumptions:  []string{"operator code pointers are compared with reflect; behaviour is compared on PRNG-chosen bindings"},
 		NumCases:     func(tier string) int { return map[string]int{"quick": 8000, "thorough": 500000}[tier] },
 		Run:          c08Run,
 		RaceNumCases: func(tier string) int { return map[string]int{"quick": 128, "thorough": 8000}[tier] },
